@@ -1,11 +1,16 @@
 (* Properties_C07.v — records are values: every copy is deep and independent.
-   PARTIAL: proved that copying a record value always allocates a new private context whose identifier
-   was unused before (so source and copy share no context, hence no field cell), and that non-record
-   values are copied as they are.  That the copy's fields, nested records and array fields equal the
-   source's, and that later writes stay on their side, is checked on generated record types (3 nesting
-   levels, array fields, arrays of records) through every copy channel against the implementation,
-   normal and sanitizer build. *)
-From PE2 Require Import Heap Lemmas_Copy.
+   The copy constructor of record values (Heap.copy_val / copy_ctx, used by BYVAL passing, RETURN, reading a record
+   variable and array-element copies) is proved, for every record value however nested, every state whose identifiers
+   lie below the allocation counter, and every fuel, to
+     - produce a value equal to the source (same field names, types, CONSTANT flags, leaf values, array shapes),
+     - leave everything that existed before untouched (the source keeps its value; nothing else of the state changes),
+     - put every context, cell and array of the copy under an identifier that did not exist before,
+   so that a later write to storage that existed before the copy cannot change the copy, and a later write to storage
+   created by the copy or afterwards cannot change the source.
+   PARTIAL: the in-place assignment r2 <- r1 (copy_var_data, which writes field by field into the existing record) is
+   compared with the implementation on generated record types through every copy channel, not proved. *)
+From PE2 Require Import Heap Lemmas_Copy Lemmas_DeepCopy.
+Local Open Scope N_scope.
 
 Theorem C07_copy_allocates_fresh_context : forall f tn c s p s',
   copy_val (S f) (PRec tn c) s = (Ok p, s') -> exists c', p = PRec tn c' /\ c' = s_next s.
@@ -19,3 +24,41 @@ Print Assumptions C07_copy_context_is_fresh.
 Theorem C07_non_record_values_copied_as_they_are : forall fuel p s, (forall tn c, p <> PRec tn c) -> copy_val fuel p s = (Ok p, s).
 Proof. exact copy_val_non_record. Qed.
 Print Assumptions C07_non_record_values_copied_as_they_are.
+
+(* the copy equals the source, the source is unchanged, nothing but the heap changes, all storage of the copy is new *)
+Theorem C07_copy_is_deep : forall fuel p s p' s', copy_val fuel p s = (Ok p', s') -> hb s ->
+  (forall g t, view g s p = Some t -> view g s' p' = Some t /\ view g s' p = Some t) /\
+  ext s s' /\ same_rest s s' /\ hb s' /\ (forall g, above (s_next s) g s' p').
+Proof. exact copy_is_deep. Qed.
+Print Assumptions C07_copy_is_deep.
+
+(* a change to the source (any writes to storage that existed before the copy) never shows in the copy *)
+Theorem C07_copy_independent_of_source : forall fuel p s p' s' s2 g, copy_val fuel p s = (Ok p', s') -> hb s ->
+  agree_from (s_next s) s' s2 -> view g s2 p' = view g s' p'.
+Proof. exact copy_independent_of_source. Qed.
+Print Assumptions C07_copy_independent_of_source.
+
+(* a change to the copy (any writes to storage created by the copy or later) never shows in the source *)
+Theorem C07_source_independent_of_copy : forall fuel p s p' s' s2 g t, copy_val fuel p s = (Ok p', s') -> hb s ->
+  (forall id, id < s_next s -> nm_get id (s_cells s2) = nm_get id (s_cells s') /\ nm_get id (s_arrs s2) = nm_get id (s_arrs s') /\
+                               nm_get id (s_ctxs s2) = nm_get id (s_ctxs s')) ->
+  view g s p = Some t -> view g s2 p = Some t.
+Proof. exact source_independent_of_copy. Qed.
+Print Assumptions C07_source_independent_of_copy.
+
+(* the premise on states is met by the initial state of every run *)
+Theorem C07_initial_state_ids_below_counter : forall stdin fs rnd, hb (PE2.Run.init_state stdin fs rnd).
+Proof. exact hb_init. Qed.
+Print Assumptions C07_initial_state_ids_below_counter.
+
+(* non-vacuity: a record with a nested record and an array field, built by allocation, meets the premises and is copied *)
+Example C07_example_state_ok : hb ex_state.
+Proof. exact hb_ex_state. Qed.
+Example C07_example_copy :
+  match copy_val 8 (PRec (str_of_string "T") 2) ex_state with
+  | (Ok (PRec _ c'), s') =>
+    N.eqb c' 10 && match view 4 ex_state (PRec (str_of_string "T") 2), view 4 s' (PRec (str_of_string "T") c') with
+                   | Some a, Some b => true | _, _ => false end
+  | _ => false
+  end = true.
+Proof. vm_compute. reflexivity. Qed.
